@@ -87,6 +87,45 @@ fn judge_pair(case: &Case, l: &mut Local) {
         let worst = pts.iter().map(|p| c0.distance_to(p).abs().max(c1.distance_to(p).abs())).fold(0.0, f64::max);
         l.check("every intersection point lies on both circles", kind, worst <= 1e-7 * (1.0 + off.norm()), mk, || format!("{}: off by {:e}", kind, worst));
     }
+    // the arc of the first circle that lies inside the second one
+    match guarded(|| c0.intersection_interval(c1.clone())) {
+        Ok(iv) => {
+            if pts.len() == 2 && finite {
+                let ok = match &iv {
+                    Some(iv) => {
+                        // both intersection points bound it, its middle is inside the other circle, the point
+                        // opposite its middle is outside
+                        let mid = iv.at_fraction(0.5);
+                        let pm = c0.point_at_angle(mid);
+                        let po = c0.point_at_angle(mid + PI);
+                        let ends = [iv.at_fraction(0.0), iv.at_fraction(1.0)].iter().all(|a| pts.iter().any(|p| (c0.point_at_angle(*a) - p).norm() <= 1e-7 * (1.0 + off.norm())));
+                        ends && c1.distance_to(&pm) < 0.0 && c1.distance_to(&po) > 0.0
+                    }
+                    None => false,
+                };
+                l.bucket("arc of one circle inside the other");
+                l.check("the intersection interval is the arc of the first circle inside the second", kind, ok, mk, || format!("r0 {} r1 {} d {}: {:?}", r0, r1, d, iv));
+            } else if pts.is_empty() {
+                l.check("no intersection interval without intersection points", kind, iv.is_none(), mk, || format!("{:?}", iv));
+            }
+        }
+        Err(m) => {
+            l.check("circle-circle intersection returns", "interval panic", false, mk, || m.clone());
+        }
+    }
+    // projection onto the perimeter
+    for q in [c1p, Point2::new(off.x + 0.3 * r0, off.y - 0.2 * r0), Point2::new(off.x - 3.0 * r0, off.y + r0)] {
+        let v = q - c0.center;
+        match c0.project_point_to_perimeter(&q) {
+            Some(p) => {
+                let ok = v.norm() >= 1e-10 && c0.distance_to(&p).abs() <= 1e-9 * (1.0 + off.norm()) && (p - c0.center).normalize().dot(&v.normalize()) >= 1.0 - 1e-12;
+                l.check("projection onto the perimeter lies on the circle along the ray from the centre", "", ok, mk, || format!("{:?} -> {:?}", q, p));
+            }
+            None => {
+                l.check("projection onto the perimeter lies on the circle along the ray from the centre", "none", v.norm() < 1e-10, mk, || format!("{:?} -> None", q));
+            }
+        }
+    }
     // symmetric call
     if let Ok(q) = guarded(|| c1.intersections_with(&c0)) {
         l.check("intersection count is symmetric", kind, q.len() == pts.len() || (tangent && !exact), mk, || format!("{} vs {}", pts.len(), q.len()));
@@ -578,7 +617,7 @@ pub fn run(tier: Tier) -> i32 {
     let mut cx = Ctx::new("C11", tier, "exploration");
     cx.rule = "circle pairs: r0 in {0.5,1,2} x r1 in {0.5,1,2,3} x 6 regimes (concentric, nested, internally tangent, crossing, externally tangent, separate) x 13 directions (4 exactly representable) x 2 global offsets; external points at d/r in {1+1e-6, 1.2, sqrt2, 2, 5, 100} x 13 directions x 3 radii; outer tangents over radius pairs x 4 separations; lines/segments through a 7x7 grid of origins x 13 directions x 2 lengths; every small lattice curve against 5 circles; every ordered pair of integer points of a 13x13 lattice as a segment against integer circles (r in {1,2,5}, two centres), count decided in exact integer arithmetic; arcs over 3 centres x 2 radii x 30 start angles (k*pi/2 and +-1e-9) x 12 signed sweeps up to +-2pi; three-point arcs from every ordered triple of the 3x3 lattice at 3 scales and 2 offsets. distinct = distinct cases".into();
     cx.bounds = json!({"directions": dirs().len(), "ratios": RATIOS, "separations": SEPS, "sweeps": SWEEPS.len(), "start_angles": arc_angles().len()});
-    cx.require(&["concentric", "nested", "internally tangent", "crossing", "externally tangent", "separate", "tangent from d/r = sqrt 2", "tangent from another distance ratio", "outer tangents, equal radii", "outer tangents, larger to smaller", "outer tangents, smaller to larger", "line tangent to the circle", "line missing the circle", "line crossing the circle", "curve against circle", "segment with an end point exactly on the circle", "segment missing the circle", "segment crossing the circle", "clockwise arc", "counter-clockwise arc", "collinear triple", "general triple", "general triple with coordinates below 0.01"]);
+    cx.require(&["concentric", "nested", "internally tangent", "crossing", "externally tangent", "separate", "arc of one circle inside the other", "tangent from d/r = sqrt 2", "tangent from another distance ratio", "outer tangents, equal radii", "outer tangents, larger to smaller", "outer tangents, smaller to larger", "line tangent to the circle", "line missing the circle", "line crossing the circle", "curve against circle", "segment with an end point exactly on the circle", "segment missing the circle", "segment crossing the circle", "clockwise arc", "counter-clockwise arc", "collinear triple", "general triple", "general triple with coordinates below 0.01"]);
     cx.assume("exact tangency (one point) is demanded only along exactly representable directions; elsewhere either neighbour count is accepted (gray)");
     let cs = cases(tier);
     let l = sweep(&cs, judge);
